@@ -709,6 +709,11 @@ fn check_limit(limit: usize, cx: &Cx, want_sample: bool, rep: &mut Report) {
 fn adjacent_limits(seed: u64, count: usize, small_primes: &[u32]) -> Vec<usize> {
     let mut rng = Rng::new(mix(&[seed, 0xad1a]));
     let mut set: BTreeSet<usize> = BTreeSet::new();
+    // limits around the sizes at which a narrowed table type or index would wrap (2^16, 2^17, 2^18, 2^19, and the
+    // i32 square-root threshold 46340/46341 with its first prime 46349)
+    for n in [65535usize, 65536, 65537, 65538, 131070, 131071, 131072, 131073, 131074, 262143, 262144, 262145, 524287, 524288, 524289, 46340, 46341, 46348, 46349, 46350, 92681, 92682] {
+        set.insert(n);
+    }
     let mut attempts = 0;
     while set.len() < count && attempts < count * 100 {
         attempts += 1;
